@@ -11,6 +11,7 @@ import (
 	"os"
 	"os/exec"
 	"path/filepath"
+	"runtime"
 	"strconv"
 	"strings"
 )
@@ -260,12 +261,37 @@ func freshRefs(file string) (*refTable, []string, error) {
 		err error
 	}
 	ch := make(chan res, len(pool.ops))
-	sem := make(chan struct{}, 8)
+	par := runtime.NumCPU()
+	if par > 16 {
+		par = 16
+	}
+	if par < 2 {
+		par = 2
+	}
+	sem := make(chan struct{}, par)
+	// each child gets a file with its own call only (a replay file of a long history has
+	// megabytes of inputs that a child would parse for nothing)
+	// next to the binary: that is the driver's scratch directory, removed with it
+	tmp, err := os.MkdirTemp(filepath.Dir(os.Args[0]), "verif-refone-")
+	if err != nil {
+		if tmp, err = os.MkdirTemp("", "verif-refone-"); err != nil {
+			return nil, nil, err
+		}
+	}
+	defer os.RemoveAll(tmp)
 	for i := range pool.ops {
 		go func(i int) {
 			sem <- struct{}{}
 			defer func() { <-sem }()
-			cmd := exec.Command(os.Args[0], "-mode", "refone", "-file", file, "-k", strconv.Itoa(i))
+			k := pool.ops[i]
+			one := &ReplayFile{Format: replayFormat, Property: "C18", Mode: "serial", Inputs: []string{pool.inputs[k.Input].text},
+				Runs: []RFRun{{Tasks: [][]RFOp{{{Entry: entryNames[k.Entry], Variant: variantNames[k.Variant], Path: pathOf(k), Input: 0}}}, Schedule: [][]int64{}}}}
+			file := filepath.Join(tmp, strconv.Itoa(i)+".json")
+			if err := writeJSON(file, one); err != nil {
+				ch <- res{i, nil, err}
+				return
+			}
+			cmd := exec.Command(os.Args[0], "-mode", "refone", "-file", file, "-k", "0")
 			cmd.Stderr = os.Stderr
 			out, err := cmd.Output()
 			ch <- res{i, out, err}
